@@ -412,6 +412,25 @@ Lemma run_inv {St C O} (step : St -> C -> res (St * O)) (Inv : St -> Prop) :
   (forall s k, Inv s -> Inv (step_state step s k)) -> forall cs s, Inv s -> Inv (run step s cs).
 Proof. intros H. induction cs as [|k cs IH]; intros s Hs; cbn [run]; auto. Qed.
 
+(* ledger gaps change nothing: for a model whose step does not read the ledger (all registries
+   except the smart account, whose theorems below are stated over histories with gaps), the
+   state after any history of calls and [Advance] steps is the state after its calls alone -
+   so every theorem about call sequences holds with arbitrary ledger gaps in between *)
+Fixpoint calls_of {C} (cs : list (tcall C)) : list C :=
+  match cs with
+  | [] => []
+  | Call c :: r => c :: calls_of r
+  | Advance _ :: r => calls_of r
+  end.
+Theorem ledger_gaps_change_nothing {St C O} (step : St -> C -> res (St * O)) (dflt : O) cs : forall sl,
+  fst (run (lstep (fun _ : N => step) dflt) sl cs) = run step (fst sl) (calls_of cs).
+Proof.
+  induction cs as [|k cs IH]; intros sl; cbn [run calls_of]; auto.
+  destruct k as [c|n]; cbn [calls_of run]; rewrite IH; f_equal.
+  all: unfold step_state, lstep; destruct sl as [s now]; cbn [fst snd]; try reflexivity.
+  all: destruct (step s c) as [[s' o]|]; reflexivity.
+Qed.
+
 (* ========================================================================= *)
 (* 6. identity registry storage                                                *)
 (* ========================================================================= *)
@@ -522,7 +541,7 @@ Section SAProps.
   Variable c : sa_cfg.
 
   (* the reference machine never lowers its id bound, and an added rule gets an id at or above it *)
-  Lemma sa_spec_bound a k o a' : sa_spec c a k o = Some a' ->
+  Lemma sa_spec_bound (c0 : sa_cfg) a k o a' : sa_spec c0 a k o = Some a' ->
     (rBound a <= rBound a')%N /\
     match k, o with
     | SaAddRule _ _ _ _ _, Ok (Some r) => (rBound a <= r_id r < rBound a')%N
@@ -563,32 +582,62 @@ Section SAProps.
         intros H; inversion H; subst; cbn; split; try lia; exact I.
   Qed.
 
+  (* ---- reachable states: any history of calls and ledger advances from the empty account ---- *)
+  Definition sa_reachable (sl : sa_state * N) : Prop :=
+    exists now0 cs, sl = run (sa_lstep c) (sa_init, now0) cs.
+
+  Lemma sa_lstep_rel sl a k : sa_rel c (fst sl) a ->
+    exists a', sa_rel c (fst (step_state (sa_lstep c) sl k)) a' /\ (rBound a <= rBound a')%N
+      /\ match k, sa_lstep c sl k with
+         | Call (SaAddRule _ _ _ _ _), Ok (_, Some rl) => (rBound a <= r_id rl < rBound a')%N
+         | _, _ => True
+         end.
+  Proof.
+    intros HR. destruct sl as [s now]. cbn [fst] in HR. destruct k as [k|n].
+    - destruct (@sa_spec_sim (sa_with_now c now) s a k HR) as [a' [Es HR']].
+      destruct (@sa_spec_bound _ _ _ _ _ Es) as [Hb Hk]. exists a'.
+      split; [|split; [exact Hb|]].
+      + unfold step_state, sa_lstep, lstep in *. cbn [fst snd] in *.
+        destruct (sa_step (sa_with_now c now) s k) as [[s' o]|]; cbn [fst snd] in *; exact HR'.
+      + destruct k; try exact I. unfold sa_lstep, lstep. cbn [fst snd]. unfold step_out in Hk.
+        destruct (sa_step (sa_with_now c now) s (SaAddRule cx name until signers policies)) as [[s' [rl|]]|];
+          cbn [fst snd]; auto.
+    - exists a. unfold step_state, sa_lstep, lstep. cbn [fst snd]. split; auto. split; [lia|exact I].
+  Qed.
+
+  Lemma sa_reachable_rel sl : sa_reachable sl -> exists a, sa_rel c (fst sl) a.
+  Proof.
+    intros [now0 [cs ->]]. generalize (sa_rel_init c). generalize sa_ref0.
+    change sa_init with (fst (sa_init, now0)) at 1. generalize (sa_init, now0).
+    induction cs as [|k cs IH]; intros sl a HR; cbn [run]; eauto.
+    destruct (sa_lstep_rel sl k HR) as [a' [HR' _]]. eauto.
+  Qed.
+
   (* the ids handed out by the successful add_context_rule calls of a run, in order *)
-  Fixpoint sa_added (s : sa_state) (cs : list sa_call) : list N :=
+  Fixpoint sa_added (sl : sa_state * N) (cs : list (tcall sa_call)) : list N :=
     match cs with
     | [] => []
     | k :: r =>
-        let rest := sa_added (step_state (sa_step c) s k) r in
-        match k, sa_step c s k with
-        | SaAddRule _ _ _ _ _, Ok (_, Some rl) => r_id rl :: rest
+        let rest := sa_added (step_state (sa_lstep c) sl k) r in
+        match k, sa_lstep c sl k with
+        | Call (SaAddRule _ _ _ _ _), Ok (_, Some rl) => r_id rl :: rest
         | _, _ => rest
         end
     end.
 
-  Lemma sa_added_bound cs : forall s a, sa_rel c s a ->
-    incrb (sa_added s cs) = true /\ (forall x, In x (sa_added s cs) -> (rBound a <= x)%N).
+  Lemma sa_added_bound cs : forall sl a, sa_rel c (fst sl) a ->
+    incrb (sa_added sl cs) = true /\ (forall x, In x (sa_added sl cs) -> (rBound a <= x)%N).
   Proof.
-    induction cs as [|k cs IH]; intros s a HR; cbn [sa_added]; [split; [reflexivity|intros x []]|].
-    destruct (@sa_spec_sim c _ _ k HR) as [a' [Es HR']]. destruct (sa_spec_bound _ _ _ Es) as [Hb Hk].
+    induction cs as [|k cs IH]; intros sl a HR; cbn [sa_added]; [split; [reflexivity|intros x []]|].
+    destruct (sa_lstep_rel sl k HR) as [a' [HR' [Hb Hk]]].
     destruct (IH _ _ HR') as [Hi Hlb].
-    assert (Hrest : incrb (sa_added (step_state (sa_step c) s k) cs) = true /\
-                    (forall x, In x (sa_added (step_state (sa_step c) s k) cs) -> (rBound a <= x)%N)).
+    assert (Hrest : incrb (sa_added (step_state (sa_lstep c) sl k) cs) = true /\
+                    (forall x, In x (sa_added (step_state (sa_lstep c) sl k) cs) -> (rBound a <= x)%N)).
     { split; auto. intros x Hx. specialize (Hlb x Hx). lia. }
-    unfold step_out in Hk.
-    destruct k as [cx name until sg po|id name|id until|id|id x|id x|id p ok|id p]; try exact Hrest.
-    destruct (sa_step c s (SaAddRule cx name until sg po)) as [[s' [rl|]]|] eqn:E; try exact Hrest.
+    destruct k as [[cx name until sg po|id name|id until|id|id x|id x|id p ok|id p]|n]; try exact Hrest.
+    destruct (sa_lstep c sl (Call (SaAddRule cx name until sg po))) as [[s' [rl|]]|] eqn:E; try exact Hrest.
     split.
-    - destruct (sa_added (step_state (sa_step c) s (SaAddRule cx name until sg po)) cs) as [|y r] eqn:Er; [reflexivity|].
+    - destruct (sa_added (step_state (sa_lstep c) sl (Call (SaAddRule cx name until sg po))) cs) as [|y r] eqn:Er; [reflexivity|].
       change (incrb (r_id rl :: y :: r)) with ((r_id rl <? y)%N && incrb (y :: r)).
       rewrite Hi, andb_true_r. apply N.ltb_lt.
       assert (Hy : (rBound a' <= y)%N) by (apply Hlb; cbn; auto). lia.
@@ -596,22 +645,16 @@ Section SAProps.
   Qed.
 
   (* rule ids are never reused: the ids returned by the successful add_context_rule calls of any
-     run are strictly increasing *)
-  Theorem sa_rule_ids_never_reused cs : incrb (sa_added sa_init cs) = true.
-  Proof. apply (sa_added_bound cs (sa_rel_init c)). Qed.
-
-  Lemma sa_reach cs : exists a, sa_rel c (run (sa_step c) sa_init cs) a.
-  Proof.
-    generalize (sa_rel_init c). generalize sa_init sa_ref0. induction cs as [|k cs IH]; intros s a HR; cbn [run]; eauto.
-    destruct (@sa_spec_sim c _ _ k HR) as [a' [_ HR']]. eauto.
-  Qed.
+     history (calls interleaved with arbitrary ledger advances) are strictly increasing *)
+  Theorem sa_rule_ids_never_reused now0 cs : incrb (sa_added (sa_init, now0) cs) = true.
+  Proof. apply (sa_added_bound cs (sa_init, now0) (sa_rel_init c)). Qed.
 
   (* after every history the storage is ONE map id -> rule: every getter answers from it, the
      count is its size, the per-type lists enumerate the rules of that type exactly once (in
      creation order), no two live rules have the same fingerprint, and signer / policy lists are
-     duplicate-free and within their limits *)
-  Theorem sa_refines cs :
-    let s := run (sa_step c) sa_init cs in
+     duplicate-free, within their limits and never both empty *)
+  Theorem sa_refines sl : sa_reachable sl ->
+    let s := fst sl in
     exists rules,
       NoDup (map r_id rules)
       /\ (forall id, sa_get_rule s id = of_option (find_rule id rules))
@@ -624,7 +667,7 @@ Section SAProps.
             r_ctx r1 = r_ctx r2 -> (forall x, In x (r_signers r1) <-> In x (r_signers r2)) ->
             (forall x, In x (r_policies r1) <-> In x (r_policies r2)) -> r1 = r2).
   Proof.
-    cbn zeta. destruct (sa_reach cs) as [a HR]. exists (rRules a).
+    intros Hreach. cbn zeta. destruct (sa_reachable_rel Hreach) as [a HR]. exists (rRules a).
     pose proof HR as (HM & HS & HP & HI & HC & HN & HU & HB & HF & HW & HD & HV).
     split; auto. split; [intros id; apply (sa_get_rule_rel id HR)|]. split; [apply (count0_rel HR)|].
     split; [|split; [auto|split]].
@@ -639,19 +682,19 @@ Section SAProps.
   Qed.
 
   (* a rule with the fingerprint of a live rule (same context type, same signer SET, same policy
-     SET, in any order) is refused *)
-  Theorem sa_duplicate_fingerprint_refused cs id r cx name until sg po :
-    let s := run (sa_step c) sa_init cs in
+     SET, in any order) is refused, at any ledger *)
+  Theorem sa_duplicate_fingerprint_refused sl now id r cx name until sg po : sa_reachable sl ->
+    let s := fst sl in
     sa_get_rule s id = Ok r -> r_ctx r = cx ->
     (forall x, In x sg <-> In x (r_signers r)) -> (forall p, In p (map fst po) <-> In p (r_policies r)) ->
-    sa_step c s (SaAddRule cx name until sg po) = Fail.
+    sa_step (sa_with_now c now) s (SaAddRule cx name until sg po) = Fail.
   Proof.
-    cbn zeta. intros Hg Hc Hs Hp. destruct (sa_reach cs) as [a HR].
+    intros Hreach. cbn zeta. intros Hg Hc Hs Hp. destruct (sa_reachable_rel Hreach) as [a HR].
     rewrite (sa_get_rule_rel id HR) in Hg. destruct (find_rule id (rRules a)) as [r'|] eqn:Ef; [|discriminate].
     inversion Hg. subst r'. destruct (find_rule_id _ _ Ef) as [_ Hin].
     cbn [sa_step]. unfold sa_add_rule.
-    destruct (sa_max_rules c <=? _); [reflexivity|]. destruct (negb (nodupb signer_eqb sg)); [reflexivity|].
-    destruct (negb (until_ok c until)); [reflexivity|]. destruct (negb (sa_validate c sg (map fst po))); [reflexivity|].
+    destruct (sa_max_rules _ <=? _); [reflexivity|]. destruct (negb (nodupb signer_eqb sg)); [reflexivity|].
+    destruct (negb (until_ok _ until)); [reflexivity|]. destruct (negb (sa_validate _ sg (map fst po))); [reflexivity|].
     unfold sa_set_fp, sa_fp. destruct (negb (nodupb signer_eqb sg)); [reflexivity|].
     destruct (negb (nodupb N.eqb (map fst po))); [reflexivity|]. cbn [bind].
     rewrite (existsb_fps (cx, sg, map fst po) HR).
@@ -662,11 +705,121 @@ Section SAProps.
   Qed.
 
   (* documented limits: never more than MAX_CONTEXT_RULES rules; a successful add needs room *)
-  Theorem sa_rule_limit cs cx name until sg po :
-    let s := run (sa_step c) sa_init cs in
-    is_ok (sa_step c s (SaAddRule cx name until sg po)) = true -> sa_count0 s < sa_max_rules c.
+  Theorem sa_rule_limit (s : sa_state) now cx name until sg po :
+    is_ok (sa_step (sa_with_now c now) s (SaAddRule cx name until sg po)) = true -> sa_count0 s < sa_max_rules c.
   Proof.
-    cbn zeta. cbn [sa_step]. unfold sa_add_rule.
-    destruct (sa_max_rules c <=? sa_count0 _) eqn:E; [discriminate|]. intros _. apply Nat.leb_gt. auto.
+    cbn [sa_step]. unfold sa_add_rule. cbn [sa_max_rules sa_with_now].
+    destruct (sa_max_rules c <=? sa_count0 s) eqn:E; [discriminate|]. intros _. apply Nat.leb_gt. auto.
+  Qed.
+
+  (* ---- add_signer / add_policy: accepted iff the rule exists, the item is new, the list has
+     room, (the policy installs,) and no live rule already has the resulting fingerprint ---- *)
+  Lemma validate_grow_signers r x : sa_validate c (r_signers r) (r_policies r) = true ->
+    sa_validate c (r_signers r ++ [x]) (r_policies r) = (length (r_signers r) <? sa_max_signers c).
+  Proof.
+    unfold sa_validate. rewrite !andb_true_iff. intros [[H1 H2] H3]. rewrite H2, app_length. cbn [length].
+    replace (match r_signers r ++ [x], r_policies r with [], [] => true | _, _ => false end) with false
+      by (destruct (r_signers r); reflexivity).
+    cbn [negb]. rewrite !andb_true_r. destruct (length (r_signers r) <? sa_max_signers c) eqn:E.
+    - apply Nat.ltb_lt in E. apply Nat.leb_le. lia.
+    - apply Nat.ltb_ge in E. apply Nat.leb_gt. lia.
+  Qed.
+  Lemma validate_grow_policies r p : sa_validate c (r_signers r) (r_policies r) = true ->
+    sa_validate c (r_signers r) (r_policies r ++ [p]) = (length (r_policies r) <? sa_max_policies c).
+  Proof.
+    unfold sa_validate. rewrite !andb_true_iff. intros [[H1 H2] H3]. rewrite H1, app_length. cbn [length andb].
+    replace (match r_signers r, r_policies r ++ [p] with [], [] => true | _, _ => false end) with false
+      by (destruct (r_signers r), (r_policies r); reflexivity).
+    cbn [negb]. rewrite !andb_true_r. destruct (length (r_policies r) <? sa_max_policies c) eqn:E.
+    - apply Nat.ltb_lt in E. apply Nat.leb_le. lia.
+    - apply Nat.ltb_ge in E. apply Nat.leb_gt. lia.
+  Qed.
+
+  Theorem sa_add_signer_iff sl now id x : sa_reachable sl ->
+    let s := fst sl in
+    is_ok (sa_step (sa_with_now c now) s (SaAddSigner id x)) = true <->
+    exists r, sa_get_rule s id = Ok r
+      /\ ~ In x (r_signers r)                                           (* a duplicate signer is refused *)
+      /\ length (r_signers r) < sa_max_signers c                        (* MAX_SIGNERS exactly at the limit *)
+      /\ (forall id2 r2, sa_get_rule s id2 = Ok r2 ->                    (* no live rule with the new fingerprint *)
+            same_fp (r_ctx r) (r_signers r ++ [x]) (r_policies r) r2 = false).
+  Proof.
+    intros Hreach. cbn zeta. destruct (sa_reachable_rel Hreach) as [a HR].
+    pose proof HR as (_ & _ & HP & _ & _ & _ & _ & _ & _ & HW & _ & HV).
+    cbn [sa_step]. unfold sa_add_signer. rewrite (sa_get_rule_rel id HR).
+    assert (Hcoll : forall r sg po, existsb (same_fp (r_ctx r) sg po) (rRules a) = false <->
+                      (forall id2 r2, sa_get_rule (fst sl) id2 = Ok r2 -> same_fp (r_ctx r) sg po r2 = false)).
+    { intros r sg po. split.
+      - intros H id2 r2 Hg. rewrite (sa_get_rule_rel id2 HR) in Hg.
+        destruct (find_rule id2 (rRules a)) as [r2'|] eqn:E2; [|discriminate]. inversion Hg. subst r2'.
+        destruct (find_rule_id _ _ E2) as [_ Hin2]. destruct (same_fp (r_ctx r) sg po r2) eqn:Es; auto.
+        assert (existsb (same_fp (r_ctx r) sg po) (rRules a) = true) by (apply existsb_exists; eauto). congruence.
+      - intros H. destruct (existsb (same_fp (r_ctx r) sg po) (rRules a)) eqn:E; auto.
+        apply existsb_exists in E. destruct E as [r2 [Hin2 Es]].
+        pose proof HR as (_ & _ & _ & _ & _ & _ & HU & _).
+        rewrite (H (r_id r2) r2) in Es; [discriminate|]. rewrite (sa_get_rule_rel (r_id r2) HR).
+        rewrite (@find_rule_in (r_id r2) (rRules a) r2 HU Hin2 eq_refl). reflexivity. }
+    destruct (find_rule id (rRules a)) as [r|] eqn:Ef; cbn [of_option bind].
+    2:{ split; [discriminate|]. intros [r [H _]]. discriminate. }
+    destruct (find_rule_id _ _ Ef) as [_ Hin]. destruct (HW r Hin) as [W1 W2].
+    destruct (memb signer_eqb x (r_signers r)) eqn:Em.
+    { apply (memb_In signer_eqb signer_eqb_spec) in Em. split; [discriminate|].
+      intros [r' [Hr [Hn _]]]. inversion Hr. subst r'. contradiction. }
+    apply (memb_false signer_eqb signer_eqb_spec) in Em.
+    change (sa_validate (sa_with_now c now)) with (sa_validate c).
+    rewrite (validate_grow_signers r x (HV r Hin)).
+    destruct (length (r_signers r) <? sa_max_signers c) eqn:El; cbn [negb].
+    2:{ apply Nat.ltb_ge in El. split; [discriminate|]. intros [r' [Hr [_ [Hl _]]]]. inversion Hr. subst r'. lia. }
+    apply Nat.ltb_lt in El.
+    rewrite (@sp_fps c _ _ (fst sl) a r (r_signers r ++ [x]) (r_policies r) HR Hin (NoDup_snoc x W1 Em) W2).
+    destruct (existsb (same_fp (r_ctx r) (r_signers r ++ [x]) (r_policies r)) (rRules a)) eqn:Ex; cbn [is_ok].
+    - split; [discriminate|]. intros [r' [Hr [_ [_ Hc]]]]. inversion Hr. subst r'.
+      apply (Hcoll r) in Hc. congruence.
+    - split; [|reflexivity]. intros _. exists r. split; auto. split; auto. split; auto. apply (Hcoll r). auto.
+  Qed.
+
+  Theorem sa_add_policy_iff sl now id p installs : sa_reachable sl ->
+    let s := fst sl in
+    is_ok (sa_step (sa_with_now c now) s (SaAddPolicy id p installs)) = true <->
+    exists r, sa_get_rule s id = Ok r
+      /\ ~ In p (r_policies r)                                          (* a duplicate policy is refused *)
+      /\ installs = true                                                (* the policy contract accepted the install *)
+      /\ length (r_policies r) < sa_max_policies c                      (* MAX_POLICIES exactly at the limit *)
+      /\ (forall id2 r2, sa_get_rule s id2 = Ok r2 ->
+            same_fp (r_ctx r) (r_signers r) (r_policies r ++ [p]) r2 = false).
+  Proof.
+    intros Hreach. cbn zeta. destruct (sa_reachable_rel Hreach) as [a HR].
+    pose proof HR as (_ & _ & HP & _ & _ & _ & HU & _ & _ & HW & _ & HV).
+    cbn [sa_step]. unfold sa_add_policy. rewrite (sa_get_rule_rel id HR).
+    assert (Hcoll : forall r sg po, existsb (same_fp (r_ctx r) sg po) (rRules a) = false <->
+                      (forall id2 r2, sa_get_rule (fst sl) id2 = Ok r2 -> same_fp (r_ctx r) sg po r2 = false)).
+    { intros r sg po. split.
+      - intros H id2 r2 Hg. rewrite (sa_get_rule_rel id2 HR) in Hg.
+        destruct (find_rule id2 (rRules a)) as [r2'|] eqn:E2; [|discriminate]. inversion Hg. subst r2'.
+        destruct (find_rule_id _ _ E2) as [_ Hin2]. destruct (same_fp (r_ctx r) sg po r2) eqn:Es; auto.
+        assert (existsb (same_fp (r_ctx r) sg po) (rRules a) = true) by (apply existsb_exists; eauto). congruence.
+      - intros H. destruct (existsb (same_fp (r_ctx r) sg po) (rRules a)) eqn:E; auto.
+        apply existsb_exists in E. destruct E as [r2 [Hin2 Es]].
+        rewrite (H (r_id r2) r2) in Es; [discriminate|]. rewrite (sa_get_rule_rel (r_id r2) HR).
+        rewrite (@find_rule_in (r_id r2) (rRules a) r2 HU Hin2 eq_refl). reflexivity. }
+    destruct (find_rule id (rRules a)) as [r|] eqn:Ef; cbn [of_option bind].
+    2:{ split; [discriminate|]. intros [r [H _]]. discriminate. }
+    destruct (find_rule_id _ _ Ef) as [_ Hin]. destruct (HW r Hin) as [W1 W2].
+    destruct (memb N.eqb p (r_policies r)) eqn:Em.
+    { apply (memb_In N.eqb N.eqb_eq) in Em. split; [discriminate|].
+      intros [r' [Hr [Hn _]]]. inversion Hr. subst r'. contradiction. }
+    apply (memb_false N.eqb N.eqb_eq) in Em.
+    destruct installs; cbn [negb].
+    2:{ split; [discriminate|]. intros [r' [_ [_ [Hi _]]]]. discriminate. }
+    change (sa_validate (sa_with_now c now)) with (sa_validate c).
+    rewrite (validate_grow_policies r p (HV r Hin)).
+    destruct (length (r_policies r) <? sa_max_policies c) eqn:El; cbn [negb].
+    2:{ apply Nat.ltb_ge in El. split; [discriminate|]. intros [r' [Hr [_ [_ [Hl _]]]]]. inversion Hr. subst r'. lia. }
+    apply Nat.ltb_lt in El.
+    rewrite (@sp_fps c _ _ (fst sl) a r (r_signers r) (r_policies r ++ [p]) HR Hin W1 (NoDup_snoc p W2 Em)).
+    destruct (existsb (same_fp (r_ctx r) (r_signers r) (r_policies r ++ [p])) (rRules a)) eqn:Ex; cbn [is_ok].
+    - split; [discriminate|]. intros [r' [Hr [_ [_ [_ Hc]]]]]. inversion Hr. subst r'.
+      apply (Hcoll r) in Hc. congruence.
+    - split; [|reflexivity]. intros _. exists r. split; auto. split; auto. split; auto. split; auto. apply (Hcoll r). auto.
   Qed.
 End SAProps.
